@@ -121,9 +121,24 @@ func (c *c11Cache) take() (gets []string, hits int, sets []string) {
 // ---------------------------------------------------------------------------------------------------------------
 // creation context, request context
 
+// the watcher of the creation context remembers who asked to be told about a change of a file, so that a reload can be
+// delivered to the living objects the way the real watcher does it (listener.OnChanged)
 type c11Watcher struct{}
 
-func (c11Watcher) Add(string, watcher.ChangeListener) error { return nil }
+// the listeners registered since the last reset (those of the mechanism created last)
+var c11Listeners []watcher.ChangeListener
+
+func (c11Watcher) Add(_ string, l watcher.ChangeListener) error {
+	c11Listeners = append(c11Listeners, l)
+
+	return nil
+}
+
+func c11Notify(listeners []watcher.ChangeListener) {
+	for _, l := range listeners {
+		l.OnChanged(zerolog.Nop())
+	}
+}
 
 type c11KeyHolders struct{}
 
@@ -334,17 +349,57 @@ func c11RotateFinalizerKey() {
 		panic(err)
 	}
 
-	der, err := x509.MarshalPKCS8PrivateKey(key)
-	if err != nil {
-		panic(err)
-	}
+	c11WriteFinalizerKey(key)
+}
 
-	data := pem.EncodeToMemory(&pem.Block{Type: "PRIVATE KEY", Bytes: der, Headers: map[string]string{"X-Key-ID": "c11key"}})
-	if err = os.WriteFile(c11KeyFile, data, 0o600); err != nil {
+// writes the key store of the jwt finalizer: the given key under the fixed key id; it is the key tokens are expected
+// to verify with from now on
+func c11WriteFinalizerKey(key *ecdsa.PrivateKey) {
+	if err := c11WriteKeyStore(c11KeyFile, "c11key", key); err != nil {
 		panic(err)
 	}
 
 	c11FinKey = key
+}
+
+func c11WriteKeyStore(path, kid string, key *ecdsa.PrivateKey) error {
+	der, err := x509.MarshalPKCS8PrivateKey(key)
+	if err != nil {
+		return err
+	}
+
+	hdr := map[string]string{}
+	if kid != "" {
+		hdr["X-Key-ID"] = kid
+	}
+
+	return os.WriteFile(path, pem.EncodeToMemory(&pem.Block{Type: "PRIVATE KEY", Bytes: der, Headers: hdr}), 0o600)
+}
+
+// a change of a watched key store followed by the notification of the living listeners (the file watcher firing):
+// "new" = another key under the same key id, "same" = the file rewritten with the key in force, "back" = the key that was
+// in force before the last change (a roll-back; without an earlier key: "same"). Returns the keys now in force / before.
+func c11ReloadKeyStore(
+	how string, cur, prev *ecdsa.PrivateKey, write func(*ecdsa.PrivateKey), listeners []watcher.ChangeListener,
+) (*ecdsa.PrivateKey, *ecdsa.PrivateKey) {
+	switch how {
+	case "new":
+		key, err := ecdsa.GenerateKey(elliptic.P256(), rand.Reader)
+		if err != nil {
+			panic(err)
+		}
+
+		prev, cur = cur, key
+	case "back":
+		if prev != nil {
+			prev, cur = cur, prev
+		}
+	}
+
+	write(cur)
+	c11Notify(listeners)
+
+	return cur, prev
 }
 
 func c11Describe(r *http.Request, body []byte) string {
@@ -520,6 +575,8 @@ type c11Mech struct {
 type c11Proto struct {
 	kind   string
 	holder keyholder.KeyHolder
+	// who the file watcher would notify about a change of a watched file (the signer of the jwt finalizer)
+	listeners []watcher.ChangeListener
 	with   func(override map[string]any) (*c11Mech, error)
 }
 
@@ -564,8 +621,18 @@ func c11JWTClaims(header string) string {
 }
 
 func c11NewProto(kind, id string, conf map[string]any) (*c11Proto, error) {
+	proto, err := c11NewProtoOf(kind, id, conf)
+	if proto != nil {
+		proto.listeners = c11Listeners
+	}
+
+	return proto, err
+}
+
+func c11NewProtoOf(kind, id string, conf map[string]any) (*c11Proto, error) {
 	cctx := c11CreationContext{}
 	c11LastHolder = nil
+	c11Listeners = nil
 
 	switch kind {
 	case "genericAuthenticator", "introspection", "jwtAuthenticator":
@@ -912,27 +979,42 @@ func c11KeyOp(c map[string]any) (any, error) {
 			keys = append(keys, clientcredentials.VerifC11CacheKey(&cc))
 		}
 	case "jwtSigner":
-		// a signer created by its constructor from a key store holding the harness key under the given key id
-		der, _ := x509.MarshalPKCS8PrivateKey(c11FinKey)
-		hdr := map[string]string{}
-
-		if kid := getStr(cfg, "kid"); kid != "" {
-			hdr["X-Key-ID"] = kid
-		}
-
+		// a signer created by its constructor from a key store holding the harness key under the given key id; then
+		// the changes of the key store listed in `reloads`, each delivered to the living signer as the file watcher
+		// does; the keys reported are those of the final state
 		f, err := os.CreateTemp("", "verif-c11-signer-*.pem")
 		if err != nil {
 			return nil, err
 		}
 
-		_ = pem.Encode(f, &pem.Block{Type: "PRIVATE KEY", Bytes: der, Headers: hdr})
 		f.Close()
 
 		defer os.Remove(f.Name())
 
+		if err = c11WriteKeyStore(f.Name(), getStr(cfg, "kid"), c11FinKey); err != nil {
+			return nil, err
+		}
+
+		c11Listeners = nil
+
 		signer, err := finalizers.VerifC11NewSigner(f.Name(), getStr(cfg, "iss"), c11Watcher{})
 		if err != nil {
 			return map[string]any{"error": "signer: " + c11ErrKind(err)}, nil
+		}
+
+		listeners := c11Listeners
+		cur, prev := c11FinKey, (*ecdsa.PrivateKey)(nil)
+
+		for _, how := range getArr(cfg, "reloads") {
+			// the digest is asked for on every request, hence also between two changes of the key store
+			_ = signer.Hash()
+
+			h, _ := how.(string)
+			cur, prev = c11ReloadKeyStore(h, cur, prev, func(k *ecdsa.PrivateKey) {
+				if err := c11WriteKeyStore(f.Name(), getStr(cfg, "kid"), k); err != nil {
+					panic(err)
+				}
+			}, listeners)
 		}
 
 		for range reps {
@@ -1069,8 +1151,9 @@ func c11RunOnce(c map[string]any, cacheOn bool) ([]any, error) {
 	}
 
 	var (
-		out   []any
-		proto *c11Proto
+		out     []any
+		proto   *c11Proto
+		prevKey *ecdsa.PrivateKey // the key of the finalizer's key store before its last change
 	)
 
 	c11TakeCalls()
@@ -1106,9 +1189,21 @@ func c11RunOnce(c map[string]any, cacheOn bool) ([]any, error) {
 
 			// the mechanism is created once and used by all rules (steps); a replaced key store means a reload
 			if getBool(step, "rotate") {
+				prevKey = c11FinKey
 				c11RotateFinalizerKey()
 
 				proto = nil
+			}
+
+			// the key store changes and the file watcher tells the LIVING signer (OnChanged): mechanism, rule-level
+			// variants and cache stay
+			if how := getStr(step, "reload"); how != "" {
+				var listeners []watcher.ChangeListener
+				if proto != nil {
+					listeners = proto.listeners
+				}
+
+				_, prevKey = c11ReloadKeyStore(how, c11FinKey, prevKey, c11WriteFinalizerKey, listeners)
 			}
 
 			if proto == nil {
